@@ -607,6 +607,12 @@ def parseTypedef (fuel : Nat) (cm : Bytes) (node : T) : W Typedef := do
   let al ← pegText ids buf node
   pure { ty := ft, alias := al, anns := [], comments := cm }
 
+/-- value of an enum member written without `= n`: 0 for the first, previous + 1 (int64 arithmetic) otherwise -/
+def implicitEnumValue (values : List EnumValue) : Int :=
+  match values.getLast? with
+  | none => 0
+  | some l => wrap64 (l.value + 1)
+
 /-- the body of the enum loop for one `n` that is an Identifier; returns the value and the node the loop
 continues from -/
 def enumValueAt (values : List EnumValue) (valueComments : Bytes) (n : T) : W (EnumValue × T) := do
@@ -617,10 +623,7 @@ def enumValueAt (values : List EnumValue) (valueComments : Bytes) (n : T) : W (E
       let n2 ← next? nx
       let s ← pegText ids buf n2
       pure ((GoStrconv.parseInt s 0 64).1, n2)
-    else
-      match values.getLast? with
-      | none => pure ((0 : Int), n)
-      | some l => pure (wrap64 (l.value + 1), n) : W (Int × T))
+    else pure (implicitEnumValue values, n) : W (Int × T))
   let nx ← next? n
   let r2 ← rule? nx
   let (anns, n) ← (if r2 = ids.rAnnotations then do
